@@ -3,6 +3,7 @@ import IsoVerif.Model.C09
 import IsoVerif.Model.C09Labels
 import IsoVerif.Model.C09Tpm
 import IsoVerif.Model.C09Files
+import IsoVerif.Model.SampleFolders
 
 namespace IsoVerif.Driver.C09
 open Lean IsoVerif.Driver IsoVerif.Gen IsoVerif.Model.C09
@@ -176,7 +177,8 @@ def growthOps : List (String × Handler) := [
   ("labels_list", fun j => do
       let pfx ← jStr (← arg j "prefix")
       let lines ← jList jStr (← arg j "lines")
-      pure (ofParsedSamples (IsoVerif.Model.C10.parseList pfx (lines.map (fun l => parseListLine l.toList))))),
+      -- BAM input (`real_list` sets input_type = "bam"): a line with several files is refused since the repair of the C10 side finding
+      pure (ofParsedSamples (IsoVerif.Model.C10.parseListBam pfx (lines.map (fun l => parseListLine l.toList))))),
   ("labels_yaml", fun j => do
       let pfx ← jStr (← arg j "prefix")
       let es ← jList jYEntry (← arg j "entries")
